@@ -878,8 +878,18 @@ func init() {
 		}
 		return tuple{v, true}
 	}
+	// what goes into a shared sync.Map is published to every goroutine (footprint monitor)
+	publish := func(fr *frame, recv value, m *omap, k, v value) {
+		if sh := fr.i.shared; sh != nil && sh.cells[recv.(*value)] {
+			sh.maps[m] = true
+			sh.publish(k)
+			sh.publish(v)
+		}
+	}
 	externals["(*sync.Map).Store"] = func(fr *frame, a []value) value {
-		smap(fr, a[0], true).insert(fr.i, a[1], a[2])
+		m := smap(fr, a[0], true)
+		m.insert(fr.i, a[1], a[2])
+		publish(fr, a[0], m, a[1], a[2])
 		return nil
 	}
 	externals["(*sync.Map).LoadOrStore"] = func(fr *frame, a []value) value {
@@ -888,6 +898,7 @@ func init() {
 			return tuple{v, true}
 		}
 		m.insert(fr.i, a[1], a[2])
+		publish(fr, a[0], m, a[1], a[2])
 		return tuple{a[2], false}
 	}
 	externals["(*sync.Map).Delete"] = func(fr *frame, a []value) value {
